@@ -449,7 +449,7 @@ def _order(d, seeds, fix):
 # ------------------------------------------------------------------------- NNX
 
 NNX_ACTIONS = ['draw-default', 'draw-s1', 'draw-missing', 'split2', 'split-only-s1', 'with-split',
-               'reseed-s1', 'splitmerge', 'draw-s2']
+               'reseed-s1', 'splitmerge', 'draw-s2', 'reseed-s1-key']
 
 
 def _nnx(res, unit):
@@ -545,8 +545,9 @@ def _nnx(res, unit):
         if n0 in split_names and c1 == c0:
           raise _Bad(f'stream {n0}: the counter was not advanced past the key consumed by the '
                      'split (the next draw would replay it)')
-    elif a == 'reseed-s1':
-      nnx.reseed(r, s1=7)
+    elif a in ('reseed-s1', 'reseed-s1-key'):
+      # the seed given as an int or as a key array: both restart the stream
+      nnx.reseed(r, s1=7 if a == 'reseed-s1' else jax.random.key(7))
       ref = nnx.Rngs(s1=7)
       if kd(r.s1.key.value) != kd(ref.s1.key.value) or int(r.s1.count.value) != 0:
         raise _Bad('reseed did not restart the stream')
